@@ -15,18 +15,23 @@
 //           asynchronous reset x depth 1, 2, powers of two, non powers of two x reset held 0..3 cycles longer than the minimum x
 //           writes during reset (dropped by the reset logic) or a forced write in the first cycle after reset x latency 1..3;
 //           array model: contents = reset image until written
-//   mode 9  read-register family: the L read-latency registers of a read port with / without reset values and with / without a read
-//           enable (ENIF), latency 1..3, every MemType, synchronous / asynchronous / no reset, enable held low for 1..4 cycles after
+//   mode 9  read-register family: the L read-latency registers of a read port with / without reset values and without enable, under
+//           one read enable (ENIF) or under per-stage enable scopes (own / shared pin / none per stage), RAMs and ROMs, latency 1..3, every MemType, synchronous / asynchronous / no reset, enable held low for 1..4 cycles after
 //           the reset and toggling later; model: enabled shift register behind the array read, holding its reset values until loaded
+//           incl. read-modify-write with the write port in the same ENIF scope as all read registers (hazard bypass logic with enable)
+//   mode 10 as mode 9, but read-modify-write under an enable while other read ports of the memory sit under other enables / none,
+//           and latency 3 (ring buffer mode of the hazard logic): two known findings (hazard logic accepted but wrong, see
+//           harness/examples/c07_finding_hazard_bypass_mixed_enable_domains.cpp.txt); the driver marks these designs from the design
+//           alone (domains=mixed / ring=true) so that they get signatures of their own
 //
 // One block per case:
 //   case <id> depth= width= aw= L= type= init= dev= mode= idle= memreset= noreset= initnet= explicit= resetcycles= ports=<n>
 //   net mems= memports= ext=<vendor primitive:count,...>   what the post-processed netlist contains
-//   port <i> R share=<j|-> xor=<bits|->   read port; address pin shared with port j (declared earlier) or own; pin = regs(data ^ xor)
+//   port <i> R share=<j|-> xor=<bits|-> en= sten=<per stage enable pin|-,...> rst=<per stage reset value,...|->   read port; address pin shared with port j (declared earlier) or own; pin = regs(data ^ xor)
 //   port <i> W cond=<0|1> rmw=<j|-> share=<j|->   write port; data = pin (xor async data of read port j)
 //   mem <w0> <w1> ...                 power-on contents, one 0/1/x string per word
 //   pre <ok|e>   post <ok|e reason>   whether simulation before / postprocess+simulation after worked (e = gatery threw; reason = hint text)
-//   c <t> ; <port inputs in declaration order: R: en addr | W: en wrEn addr data> ; <async read data> ; <pins pre> ; <pins post> [; <read enable pins, one per read port, - if none>]
+//   c <t> ; <port inputs in declaration order: R: en addr | W: en wrEn addr data> ; <async read data> ; <pins pre> ; <pins post> [; per read port the stage enables e.g. 1,-,0]
 //   end
 // Port inputs and async read data are sampled on the netlist as built (before post-processing) right before the clock edge;
 // "-" = input not connected. Pins are the pinOut()s behind L registers.
@@ -36,6 +41,7 @@
 #include <gatery/hlim/supportNodes/Node_Memory.h>
 #include <gatery/hlim/supportNodes/Node_External.h>
 #include <map>
+#include <algorithm>
 #include <gatery/scl/arch/intel/IntelDevice.h>
 #include <gatery/scl/arch/xilinx/XilinxDevice.h>
 #include "common.h"
@@ -51,7 +57,10 @@ struct PortCfg {
 	bool cond = false;   // write under IF (en)
 	int rmw = -1;        // write data = pin ^ async data of that (earlier) read port
 	int share = -1;      // address pin shared with that earlier port
-	bool rdEn = false;                 // read port: the L registers sit under ENIF(own enable pin)
+	int enOf = -1;       // write port: declared inside ENIF(enable pin 0 of that earlier read port)
+	int enFrom = -1;     // read port: its stage enables use the enable pins of that earlier read port (same ENIF scope)
+	bool rdEn = false;                 // read port: some of the L registers sit under ENIF
+	std::vector<int> stEn;             // read port, per register stage: -1 = no enable scope, j = ENIF(enable pin j of this port)
 	std::vector<std::string> rstVals;  // read port: reset value of register k (empty = registers without reset value)
 	std::string outXor;  // read port: constant xor-ed onto the read data in front of the L registers (they must be retimed across it)
 };
@@ -66,6 +75,7 @@ struct CaseCfg {
 	bool noReset = false;  // clock without reset (registers rely on power-on initialisation): cycle 0 is a normal cycle
 	bool initNet = false; // initZero(): initialization network attached
 	bool asyncReset = false;
+	bool rmwEn = false;      // mode 9: read-modify-write under one enable (read registers and write port in the same ENIF scope)
 	size_t enLow = 0;        // mode 9: read enables stay low for this many cycles after the reset cycle(s)
 	size_t extraReset = 0;   // reset held this many cycles longer than Clock::getMinResetCycles() asks for
 	bool wrInReset = false;  // write enables are also driven while the reset is asserted
@@ -89,7 +99,7 @@ static std::string bitsOf(uint64_t v, size_t w) { std::string s; for (size_t i =
 static size_t log2c(size_t v) { size_t b = 0; while ((size_t(1) << b) < v) b++; return b; }
 
 struct Built {
-	std::vector<hlim::Node_Pin*> inPins; std::vector<size_t> inWidths; std::vector<int> inKind; std::vector<int> inPort; // kind 0 addr 1 en 2 data 3 read enable
+	std::vector<hlim::Node_Pin*> inPins; std::vector<size_t> inWidths; std::vector<int> inKind; std::vector<int> inPort; std::vector<int> inSub; // kind 0 addr 1 en 2 data 3 read enable (inSub = enable pin number within the port)
 	std::vector<hlim::Node_Pin*> outPins;
 	std::vector<hlim::Node_MemPort*> memPorts;
 	std::optional<Clock> clock;
@@ -129,41 +139,51 @@ static void build(DesignScope &design, CaseCfg &c, Built &b, bool withResetNet =
 	}
 	size_t pw = std::max<size_t>(aw, 1);   // a depth-1 memory has a zero-width address: the frontend truncates the 1-bit pin
 	std::vector<UInt> addrOf(c.ports.size()), rdData(c.ports.size());
+	std::vector<std::vector<Bit>> renOf(c.ports.size());
 	for (size_t i = 0; i < c.ports.size(); i++) {
 		const PortCfg &p = c.ports[i];
 		if (p.share >= 0) addrOf[i] = addrOf[p.share];
 		else {
 			addrOf[i] = pinIn(BitWidth(pw)).setName("a" + std::to_string(i));
-			b.inPins.push_back(pinOf(addrOf[i])); b.inWidths.push_back(pw); b.inKind.push_back(0); b.inPort.push_back((int) i);
+			b.inPins.push_back(pinOf(addrOf[i])); b.inWidths.push_back(pw); b.inKind.push_back(0); b.inPort.push_back((int) i); b.inSub.push_back(0);
 		}
 		if (!p.isWrite) {
 			rdData[i] = mem[addrOf[i]];
 			UInt o = rdData[i];
 			if (!p.outXor.empty()) { std::string lit = std::to_string(c.width) + "b" + p.outXor; UInt k = lit.c_str(); o = o ^ k; }
-			Bit ren;
-			if (p.rdEn) {
-				ren = pinIn().setName("r" + std::to_string(i));
-				b.inPins.push_back(pinOf(ren)); b.inWidths.push_back(1); b.inKind.push_back(3); b.inPort.push_back((int) i);
+			std::vector<Bit> ren;
+			if (p.enFrom >= 0) ren = renOf[p.enFrom];
+			else {
+				int nPins = 0; for (int e : p.stEn) nPins = std::max(nPins, e + 1);
+				for (int j = 0; j < nPins; j++) {
+					ren.push_back(pinIn().setName("r" + std::to_string(i) + "_" + std::to_string(j)));
+					b.inPins.push_back(pinOf(ren.back())); b.inWidths.push_back(1); b.inKind.push_back(3); b.inPort.push_back((int) i); b.inSub.push_back(j);
+				}
 			}
 			for (size_t k = 0; k < c.L; k++) {
 				auto stage = [&]() {
 					if (p.rstVals.empty()) o = reg(o, {.allowRetimingBackward = true});
 					else { std::string lit = std::to_string(c.width) + "b" + p.rstVals[k]; UInt rv = lit.c_str(); o = reg(o, rv, {.allowRetimingBackward = true}); }
 				};
-				if (p.rdEn) { ENIF (ren) stage(); } else stage();
+				int e = k < p.stEn.size() ? p.stEn[k] : -1;
+				if (e >= 0) { ENIF (ren[e]) stage(); } else stage();
 			}
+			renOf[i] = ren;
 			b.outPins.push_back(pinOut(o).setName("q" + std::to_string(i)).node());
 		} else {
 			UInt d = pinIn(BitWidth(c.width)).setName("d" + std::to_string(i));
-			b.inPins.push_back(pinOf(d)); b.inWidths.push_back(c.width); b.inKind.push_back(2); b.inPort.push_back((int) i);
+			b.inPins.push_back(pinOf(d)); b.inWidths.push_back(c.width); b.inKind.push_back(2); b.inPort.push_back((int) i); b.inSub.push_back(0);
 			UInt data = d;
 			if (p.rmw >= 0) data = rdData[p.rmw] ^ d;
-			if (p.cond) {
-				Bit en = pinIn().setName("e" + std::to_string(i));
-				b.inPins.push_back(pinOf(en)); b.inWidths.push_back(1); b.inKind.push_back(1); b.inPort.push_back((int) i);
-				IF (en) mem[addrOf[i]] = data;
-			} else
-				mem[addrOf[i]] = data;
+			auto doWrite = [&]() {
+				if (p.cond) {
+					Bit en = pinIn().setName("e" + std::to_string(i));
+					b.inPins.push_back(pinOf(en)); b.inWidths.push_back(1); b.inKind.push_back(1); b.inPort.push_back((int) i); b.inSub.push_back(0);
+					IF (en) mem[addrOf[i]] = data;
+				} else
+					mem[addrOf[i]] = data;
+			};
+			if (p.enOf >= 0 && !renOf[p.enOf].empty()) { ENIF (renOf[p.enOf][0]) doWrite(); } else doWrite();
 		}
 	}
 	// the memory ports in declaration order
@@ -260,12 +280,12 @@ static CaseCfg genCase(vh::Rng &rng, int mode) {
 	c.dev = mode == 1 ? (rng.chance(2, 3) ? 1 : 4) : mode == 2 ? (rng.chance(2, 3) ? 2 : 3) : 0;
 	c.type = (int) rng.below(4);
 	c.L = rng.below(4);
-	if (mode == 9) { c.L = 1 + rng.below(3); c.asyncReset = rng.chance(1, 3); c.enLow = 1 + rng.below(4); }
+	if ((mode == 9 || mode == 10)) { c.L = 1 + rng.below(3); c.asyncReset = rng.chance(1, 3); c.enLow = 1 + rng.below(4); }
 	c.memReset = mode == 5 || mode == 8;
 	if (mode == 8) { c.L = 1 + rng.below(3); c.asyncReset = rng.chance(1, 2); c.extraReset = rng.chance(1, 2) ? 0 : 1 + rng.below(3); c.wrInReset = rng.chance(1, 3); }
 	// with a synchronous reset the first rising clock edge happens under reset (Clock::getMinResetCycles() >= 1): cycle 0 is a
 	// reset cycle, no write is issued in it (so every write port has an enable); without reset the stimulus starts right away
-	c.noReset = !c.memReset && mode != 7 && !c.asyncReset && rng.chance(1, mode == 9 ? 4 : 2);
+	c.noReset = !c.memReset && mode != 7 && !c.asyncReset && rng.chance(1, (mode == 9 || mode == 10) ? 4 : 2);
 	c.idle = (c.noReset || mode == 7) ? 0 : 1;
 	size_t nR = 1 + rng.below(3), nW = 1 + rng.below(2);
 	// writes during reset: only the write port the reset logic takes over (findSuitableResetWritePort = the first one) drops them;
@@ -287,7 +307,8 @@ static CaseCfg genCase(vh::Rng &rng, int mode) {
 		c.explicitLatency = rng.chance(1, 3); if (c.explicitLatency && c.L == 0) c.L = 1;
 		if (rng.chance(1, 2)) { nR = 1; nW = 1; }          // the shape vendor block rams / lutrams are mapped for
 	}
-	bool useRdEn = mode == 9 && rng.chance(3, 5);   // cases without any read enable keep read-modify-write data (hazard logic + reset values)
+	if ((mode == 9 || mode == 10) && rng.chance(1, 6)) nW = 0;      // ROMs too
+	bool useRdEn = (mode == 9 || mode == 10) && rng.chance(3, 5);   // cases without any read enable keep read-modify-write data (hazard logic + reset values)
 	// declaration order
 	std::vector<bool> kinds; for (size_t i = 0; i < nR; i++) kinds.push_back(false); for (size_t i = 0; i < nW; i++) kinds.push_back(true);
 	for (size_t i = kinds.size(); i > 1; i--) { size_t j = rng.below(i); bool t = kinds[i - 1]; kinds[i - 1] = kinds[j]; kinds[j] = t; }
@@ -296,8 +317,18 @@ static CaseCfg genCase(vh::Rng &rng, int mode) {
 		if (i > 0 && rng.chance(1, 3)) p.share = (int) rng.below(i);
 		if (p.share >= 0 && c.ports[p.share].share >= 0) p.share = c.ports[p.share].share;
 		if (!p.isWrite && c.L > 0 && rng.chance(1, 4)) p.outXor = randBits(rng, c.width);
-		if (!p.isWrite && mode == 9) {
+		if (!p.isWrite && (mode == 9 || mode == 10)) {
 			p.rdEn = useRdEn && rng.chance(3, 4);
+			if (p.rdEn) {
+				// one enable for all stages (what a block ram offers), or every stage under its own scope: own pin, shared pin or none
+				if (c.L >= 2 && rng.chance(2, 5)) {
+					do { p.stEn.clear(); for (size_t k = 0; k < c.L; k++) p.stEn.push_back((int) rng.below(4) - 1); }
+					while (std::all_of(p.stEn.begin(), p.stEn.end(), [&](int e) { return e == p.stEn[0]; }));
+					// number the pins in order of first use
+					std::vector<int> ren(3, -1); int next = 0;
+					for (int &e : p.stEn) if (e >= 0) { if (ren[e] < 0) ren[e] = next++; e = ren[e]; }
+				} else p.stEn.assign(c.L, 0);
+			}
 			if (rng.chance(2, 3)) for (size_t k = 0; k < c.L; k++) p.rstVals.push_back(randBits(rng, c.width));
 		}
 		if (p.isWrite) {
@@ -311,6 +342,25 @@ static CaseCfg genCase(vh::Rng &rng, int mode) {
 	// registers with an enable cannot be retimed across logic that also feeds a write port without that enable (explicit design
 	// check "A retiming error occured", RegisterRetiming.cpp:1478-1494): no read-modify-write data when a read register has an enable
 	{ bool anyRdEn = false; for (auto &q : c.ports) anyRdEn |= q.rdEn; if (anyRdEn) for (auto &q : c.ports) q.rmw = -1; }
+	// ... unless the write port sits in the same ENIF scope as the registers of the read port it depends on: then the enable
+	// conditions are compatible and hazard bypass logic with a register enable is generated
+	// mode 9 keeps to one enable domain (every read port of the memory under that same enable, register mode of the hazard logic);
+	// mode 10 also has read ports under other enables / none and latency 3 (ring buffer mode)
+	if ((mode == 9 && useRdEn && c.L <= 2 && rng.chance(1, 2)) || (mode == 10 && useRdEn)) {
+		for (size_t i = 0; i < c.ports.size(); i++) if (!c.ports[i].isWrite && c.ports[i].rdEn && std::all_of(c.ports[i].stEn.begin(), c.ports[i].stEn.end(), [](int e) { return e == 0; })) {
+			bool firstRead = true; for (size_t j = 0; j < i; j++) if (!c.ports[j].isWrite) firstRead = false;
+			if (mode == 9 && !firstRead) break;   // an earlier read port could not share the enable pin
+			bool any = false;
+			for (size_t j = i + 1; j < c.ports.size(); j++) if (c.ports[j].isWrite) { c.ports[j].rmw = (int) i; c.ports[j].enOf = (int) i; any = true; }
+			if (any) {
+				c.rmwEn = true;
+				for (size_t j = i + 1; j < c.ports.size(); j++) if (!c.ports[j].isWrite && (mode == 9 || rng.chance(1, 3))) {
+					c.ports[j].rdEn = true; c.ports[j].stEn.assign(c.L, 0); c.ports[j].enFrom = (int) i;
+				}
+				break;
+			}
+		}
+	}
 	c.init = (nW == 0) ? 2 : (int) rng.below(4);
 	if (mode == 2 && nW > 0 && rng.chance(1, 2)) c.init = 0;   // the Xilinx primitives are only mapped for memories without power-on contents
 	if (c.memReset) { c.init = 1 + (int) rng.below(2); c.initNet = c.init == 1 && rng.chance(1, 2); c.idle = c.depth + 4; }
@@ -364,13 +414,19 @@ static void runCase(const std::string &id, vh::Rng &rng, size_t ncycles, int mod
 				st = genStim(rng, c, b, ncycles, mode);
 				simulate(design, b, st, true, internals, pinsPre);
 			}
-			if (mode == 9)   // the read enable pins, one column per read port
+			if ((mode == 9 || mode == 10))   // the read enable pins, one column per read port
 				for (auto &row : st) {
 					std::string f;
 					for (size_t i = 0; i < c.ports.size(); i++) if (!c.ports[i].isWrite) {
-						std::string v = "-";
-						for (size_t k = 0; k < b.inPins.size(); k++) if (b.inKind[k] == 3 && b.inPort[k] == (int) i) v = row[k];
-						f += " " + v;
+						// per stage the value of its enable, '-' for a stage without enable scope
+						std::string v;
+						for (size_t st = 0; st < c.L; st++) {
+							int e = st < c.ports[i].stEn.size() ? c.ports[i].stEn[st] : -1; std::string x = "-";
+							int owner = c.ports[i].enFrom >= 0 ? c.ports[i].enFrom : (int) i;
+							for (size_t k = 0; k < b.inPins.size(); k++) if (e >= 0 && b.inKind[k] == 3 && b.inPort[k] == owner && b.inSub[k] == e) x = row[k];
+							v += (st ? "," : "") + x;
+						}
+						f += " " + (v.empty() ? std::string("-") : v);
 					}
 					renField.push_back(f);
 				}
@@ -412,15 +468,17 @@ static void runCase(const std::string &id, vh::Rng &rng, size_t ncycles, int mod
 		}
 	}
 	std::cout << std::dec << "case " << id << " depth=" << c.depth << " width=" << c.width << " aw=" << log2c(c.depth) << " L=" << c.L << " type=" << typeName(c.type)
-		<< " init=" << c.init << " dev=" << c.dev << " mode=" << mode << " idle=" << c.idle << " memreset=" << (c.memReset ? 1 : 0) << " noreset=" << (c.noReset ? 1 : 0) << " initnet=" << (c.initNet ? 1 : 0) << " async=" << (c.asyncReset ? 1 : 0) << " extra=" << c.extraReset << " wrinreset=" << (c.wrInReset ? 1 : 0) << " rcpred=" << c.rcPred << " enlow=" << c.enLow
+		<< " init=" << c.init << " dev=" << c.dev << " mode=" << mode << " idle=" << c.idle << " memreset=" << (c.memReset ? 1 : 0) << " noreset=" << (c.noReset ? 1 : 0) << " initnet=" << (c.initNet ? 1 : 0) << " async=" << (c.asyncReset ? 1 : 0) << " extra=" << c.extraReset << " wrinreset=" << (c.wrInReset ? 1 : 0) << " rcpred=" << c.rcPred << " enlow=" << c.enLow << " rmwen=" << (c.rmwEn ? 1 : 0)
 		<< " explicit=" << (c.explicitLatency ? 1 : 0) << " resetcycles=" << resetCycles << " ports=" << c.ports.size() << "\n";
 	for (size_t i = 0; i < c.ports.size(); i++) {
 		const PortCfg &p = c.ports[i];
 		std::cout << "port " << i << (p.isWrite ? " W" : " R");
-		if (p.isWrite) std::cout << " cond=" << (p.cond ? 1 : 0) << " rmw=" << (p.rmw >= 0 ? std::to_string(p.rmw) : "-");
+		if (p.isWrite) std::cout << " cond=" << (p.cond ? 1 : 0) << " rmw=" << (p.rmw >= 0 ? std::to_string(p.rmw) : "-") << " enof=" << (p.enOf >= 0 ? std::to_string(p.enOf) : "-");
 		std::cout << " share=" << (p.share >= 0 ? std::to_string(p.share) : "-");
 		if (!p.isWrite) {
-			std::cout << " xor=" << (p.outXor.empty() ? "-" : p.outXor) << " en=" << (p.rdEn ? 1 : 0) << " rst=";
+			std::cout << " xor=" << (p.outXor.empty() ? "-" : p.outXor) << " en=" << (p.rdEn ? 1 : 0) << " sten=";
+			if (p.stEn.empty()) std::cout << "-"; for (size_t k = 0; k < p.stEn.size(); k++) std::cout << (k ? "," : "") << (p.stEn[k] < 0 ? std::string("-") : std::to_string(p.stEn[k]));
+			std::cout << " enfrom=" << (p.enFrom >= 0 ? std::to_string(p.enFrom) : "-") << " rst=";
 			if (p.rstVals.empty()) std::cout << "-"; for (size_t k = 0; k < p.rstVals.size(); k++) std::cout << (k ? "," : "") << p.rstVals[k];
 		}
 		std::cout << "\n";
